@@ -26,7 +26,7 @@ def wdata_exact(case, wd):
 def main(tier, seed, replay=None):
     run = Run("C02", tier, seed, "proof")
     rng = random.Random(seed)
-    proof_obligations(run, "C02")
+    proof_obligations(run, "C02", extra_pins=("E2E",))
     binp = build_harness("dev")
     n = 50 if tier == "quick" else 1000
     cases = []
